@@ -1,0 +1,76 @@
+//go:build verif
+
+package proxy
+
+import (
+	"net"
+	"sort"
+
+	"go.minekube.com/gate/pkg/edition/java/netmc"
+	"go.minekube.com/gate/pkg/edition/java/proto/packet"
+	"go.minekube.com/gate/pkg/edition/java/proxy/message"
+)
+
+// Verification hooks for property C13 (login plugin messages). Add-only, no logic:
+// a constructor over a caller-supplied connection, thin forwarding functions and accessors.
+
+// C13Inbound wraps a loginInboundConn built by newLoginInboundConn over a caller-supplied connection.
+type C13Inbound struct{ l *loginInboundConn }
+
+// C13NewInbound constructs the loginInboundConn exactly as the handshake handler does.
+func C13NewInbound(mc netmc.MinecraftConn) *C13Inbound {
+	vhost := &net.TCPAddr{IP: net.IPv4(127, 0, 0, 1), Port: 25565}
+	return &C13Inbound{l: newLoginInboundConn(newInitialInbound(mc, vhost, packet.LoginHandshakeIntent))}
+}
+
+// Conn returns the public LoginPhaseConnection view.
+func (c *C13Inbound) Conn() LoginPhaseConnection { return c.l }
+
+// Send forwards to SendLoginPluginMessage.
+func (c *C13Inbound) Send(id message.ChannelIdentifier, contents []byte, consumer MessageConsumer) error {
+	return c.l.SendLoginPluginMessage(id, contents, consumer)
+}
+
+// Respond forwards to handleLoginPluginResponse (what both login session handlers call).
+func (c *C13Inbound) Respond(res *packet.LoginPluginResponse) error {
+	return c.l.handleLoginPluginResponse(res)
+}
+
+// Fired forwards to loginEventFired.
+func (c *C13Inbound) Fired(onAllMessagesHandled func() error) error {
+	return c.l.loginEventFired(onAllMessagesHandled)
+}
+
+// Clear forwards to clearOnAllMessagesHandled, Cleanup to cleanup.
+func (c *C13Inbound) Clear()   { c.l.clearOnAllMessagesHandled() }
+func (c *C13Inbound) Cleanup() { c.l.cleanup() }
+
+// Snapshot reads the guarded fields under the lock: outstanding ids (sorted), queued message ids
+// (queue order), the fired flag and whether a completion callback is installed.
+func (c *C13Inbound) Snapshot() (outstanding, queued []int, fired, hasCallback bool) {
+	c.l.mu.Lock()
+	defer c.l.mu.Unlock()
+	for id := range c.l.outstandingResponses {
+		outstanding = append(outstanding, id)
+	}
+	sort.Ints(outstanding)
+	for i := 0; i < c.l.loginMessagesToSend.Len(); i++ {
+		queued = append(queued, c.l.loginMessagesToSend.At(i).ID)
+	}
+	return outstanding, queued, c.l.isLoginEventFired, c.l.onAllMessagesHandled != nil
+}
+
+// C13Relay wraps a modernForgeLoginRelay built by newModernForgeLoginRelay (no player: complete() is not used).
+type C13Relay struct{ r *modernForgeLoginRelay }
+
+func C13NewRelay(in *C13Inbound) *C13Relay {
+	return &C13Relay{r: newModernForgeLoginRelay(in.l, nil, nil)}
+}
+
+// RelayToClient forwards to relayToClient (what backendLoginSessionHandler calls for fml:loginwrapper).
+func (r *C13Relay) RelayToClient(backend netmc.MinecraftConn, msg *packet.LoginPluginMessage) error {
+	return r.r.relayToClient(backend, msg)
+}
+
+// Exchanges returns the number of cached exchanges.
+func (r *C13Relay) Exchanges() int { return len(r.r.exchanges()) }
